@@ -28,8 +28,8 @@ def n_perms(kind):
 def star(cname, k, lig, kind, order, parity, centre_el=None):
     """centre 0 with ligands 1..k; descriptor `kind` on the centre with ordering = canonical∘perm[order]."""
     s = _spec(cname)
-    ligs = {4: LIG4, 5: LIG5, 6: LIG6}[k][lig]
-    cel = centre_el or {4: "C", 5: "P", 6: "S"}[k]
+    ligs = {4: LIG4, 5: LIG5, 6: LIG6}[k][lig] if k in (4, 5, 6) and kind is not None else bare_ligands(k, lig)
+    cel = centre_el or {4: "C", 5: "P", 6: "S"}.get(k, "I")
     if kind == "SP":
         cel = "Pt"
     s["atoms"] = [(0, cel, {})] + [(i + 1, ligs[i], {}) for i in range(k)]
@@ -39,6 +39,18 @@ def star(cname, k, lig, kind, order, parity, centre_el=None):
         g = perm_of(kind, order)
         s["astereo"] = [(kind, tuple(base[i] for i in g), parity)]
     return s
+
+
+def bare_ligands(k, lig):
+    """ligand elements of a centre without descriptor: 0 all alike, 1 groups of sizes ~k/2, ~k/3, rest, 2 all different (k <= 8)"""
+    els = ["F", "Cl", "Br", "H", "O", "S", "N", "B"]
+    if lig == 0:
+        return ["F"] * k
+    if lig == 1:
+        a = (k + 1) // 2
+        b = (k - a + 1) // 2
+        return (["F"] * a + ["Cl"] * b + ["Br"] * (k - a - b))[:k]
+    return els[:k]
 
 
 def lonepair(cname, lig, order, parity):
@@ -361,4 +373,101 @@ def skeleton(cname, idx, renum=0):
     s = gl.empty_spec(cname)
     s["atoms"] = [(ids[i], "C", {}) for i in sorted(range(n), key=lambda i: ids[i])]
     s["bonds"] = [(ids[a], ids[b], None, {}) for a, b in bonds]
+    return s
+
+
+# ------------------------------------------------------------------------------------------------
+# regular single-element cages: all cubic graphs on 8 vertices and their complements (4-regular), generated by back-tracking and
+# de-duplicated with the brute-force isomorphism oracle; 4-regular graphs on 9 vertices for the thorough tier
+# ------------------------------------------------------------------------------------------------
+_REG_CACHE = {}
+
+
+def regular_graphs(n, k):
+    """one representative edge list per isomorphism class of k-regular graphs on n vertices (deterministic)"""
+    key = (n, k)
+    if key in _REG_CACHE:
+        return _REG_CACHE[key]
+    import json
+    import os
+    cache = os.path.join(os.path.dirname(os.path.dirname(os.path.dirname(os.path.abspath(__file__)))), ".work", f"regular_{n}_{k}.json")
+    if os.path.exists(cache):
+        try:
+            _REG_CACHE[key] = [tuple(tuple(e) for e in g) for g in json.load(open(cache))]
+            return _REG_CACHE[key]
+        except Exception:
+            pass
+    from vp.lib import iso
+    pairs = list(itertools.combinations(range(n), 2))
+    found = []
+
+    def snap_of(edges):
+        return {"cls": "MolGraph", "atoms": {i: {"atom_type": 6} for i in range(n)}, "bonds": {e: {} for e in edges}}
+
+    def invariant(edges):
+        adj = {i: set() for i in range(n)}
+        for a, b in edges:
+            adj[a].add(b)
+            adj[b].add(a)
+        tri = sum(1 for a, b in edges for c in adj[a] & adj[b]) // 3
+        sq = sum(len(adj[a] & adj[b]) * (len(adj[a] & adj[b]) - 1) // 2 for a, b in itertools.combinations(range(n), 2)) // 2
+        return (tri, sq)
+
+    deg = [0] * n
+    cur = []
+    seen_inv = {}
+
+    def rec(v):
+        # complete the neighbourhood of the lowest vertex with missing degree
+        while v < n and deg[v] == k:
+            v += 1
+        if v == n:
+            inv = invariant(cur)
+            cands = seen_inv.setdefault(inv, [])
+            s = snap_of(tuple(cur))
+            for t in cands:
+                if iso.isomorphic(s, t):
+                    return
+            cands.append(s)
+            found.append(tuple(cur))
+            return
+        need = k - deg[v]
+        options = [w for w in range(v + 1, n) if deg[w] < k and (v, w) not in cur_set]
+        for combo in itertools.combinations(options, need):
+            if v == 0 and combo != tuple(range(1, k + 1)):
+                continue    # w.l.o.g. (relabelling) vertex 0 is bonded to 1..k
+            for w in combo:
+                deg[v] += 1
+                deg[w] += 1
+                cur.append((v, w))
+                cur_set.add((v, w))
+            rec(v + 1)
+            for w in combo:
+                deg[v] -= 1
+                deg[w] -= 1
+                cur.pop()
+                cur_set.discard((v, w))
+    cur_set = set()
+    rec(0)
+    _REG_CACHE[key] = found
+    try:
+        os.makedirs(os.path.dirname(cache), exist_ok=True)
+        tmp = cache + f".{os.getpid()}"
+        json.dump(found, open(tmp, "w"))
+        os.replace(tmp, cache)
+    except Exception:
+        pass
+    return found
+
+
+def regular_spec(cname, n, k, idx, renum=0):
+    """idx-th k-regular graph on n carbons (all isomorphism classes, connected or not); renum: seeded renumbering"""
+    graphs = regular_graphs(n, k)
+    edges = graphs[idx % len(graphs)]
+    ids = list(range(n))
+    if renum:
+        random.Random(renum * 7919 + idx * 13 + n).shuffle(ids)
+    s = gl.empty_spec(cname)
+    s["atoms"] = [(ids[i], "C", {}) for i in sorted(range(n), key=lambda i: ids[i])]
+    s["bonds"] = [(ids[a], ids[b], None, {}) for a, b in edges]
     return s
